@@ -17,7 +17,7 @@ CHECKS = {
         technique='runtime monitoring: lock-step reference-model monitor with transaction context; digests and multisig matching observed through captured log lines (ASan+UBSan build)',
         text='Exploration: an independent signer builds transactions (1..4 inputs, all hash-type bytes, code separators, annex, FindAndDelete, multisig in/out of order, tapscript CHECKSIGADD chains and budgets) and signs them; '
              'the real interpreter is stepped with that context and compared after every operation with the reference interpreter using reference ECDSA/BIP340 verification over reference legacy/BIP143/BIP341-342 digests; '
-             'the digest each signature opcode actually computed and the per-signature accept/reject sequence of CHECKMULTISIG are compared as well; every corruption must be rejected with the error the active flags select. A third of the sessions hover (every step taken, taken back, taken again).',
+             'the digest each signature opcode actually computed and the per-signature accept/reject sequence of CHECKMULTISIG are compared as well; every corruption must be rejected with the error the active flags select. A third of the sessions hover (every step taken, taken back, taken again). A session stage runs taproot (budget incl. annex, annex / leaf commitments) and mixed legacy / segwit-v0 scenarios through real --tx/--txin set-up.',
         note='trusted: ref/secp.py, ref/sighash.py, ref/verify.py (anchored on the six doc/txs chain pairs and BIP340 vector 0); Schnorr contexts are single-input (known finding for multi-input)',
         ref='5 C02'),
     'C03': dict(
